@@ -33,8 +33,11 @@ func init() {
 			"ObjLen and Concat return Go int/string: handlers are generated to return integral numbers / strings only (what a non-number __len or non-string __concat result becomes is fixed by the Go types, not by Lua)",
 		},
 		CrashIsViolation: true,
-		Run:              run,
-		Replay:           replay,
+		// every case is a handful of API calls (microseconds): one that is still running
+		// after two minutes does not terminate (e.g. a frame list that has become cyclic)
+		HangSeconds: 120,
+		Run:         run,
+		Replay:      replay,
 		Reproducers: map[string]func(c *fw.Ctx) (bool, string){
 			fObjLenUserdata: func(c *fw.Ctx) (bool, string) {
 				e := newObjEnv()
